@@ -44,6 +44,10 @@ NewObj(kind, dir, c, w, bs, unit, fam, iv, via, from, pos, status) ==
    pred |-> <<>>,                       \* bytes the machine predicts for the same calls
    exps |-> <<>>,                       \* exported states: [n, v, p, pv]
    moved |-> FALSE,                     \* position changed by seek / set_block_pos (inp/out no longer one run)
+   nref |-> 0,                          \* calls inside the domain that were refused or panicked
+   off |-> FALSE,                       \* a call OUTSIDE the object's domain was accepted (e.g. a request past the end
+                                        \* of the keystream): what it does afterwards is unspecified; C11 / C13 judge the
+                                        \* acceptance itself, the other properties do not judge this object any further
    alias |-> {},                        \* aliasing forms used so far: "ip", "b2b"
    calls |-> <<>>,                      \* sizes of the successful data calls
    mode |-> "stream"]                   \* stream | async | padded | cts
@@ -92,20 +96,19 @@ DataCall(ev, o, data, b2b, junk, res, out, pres, pr) ==
   LET ob == objs[o] IN
   IF res = "ok" THEN
     /\ objs' = [objs EXCEPT ![o] = [ob EXCEPT !.inp = @ \o data, !.out = @ \o out,
-                                             !.pred = @ \o (IF pres = "ok" THEN pr.out ELSE PoisonBlk(Len(out))),
+                                             !.pred = @ \o (IF pres = "ok" THEN pr.out ELSE out),
                                              !.st = IF pres = "ok" THEN pr.st ELSE @,
+                                             !.off = @ \/ pres # "ok",
                                              !.alias = @ \cup {AliasTag(b2b)},
                                              !.calls = Append(@, Len(data))]]
     /\ last' = [Lst(ev, o, res, pres) EXCEPT !.outOk = (pres = "ok" /\ out = pr.out),
                                              !.lenOk = (Len(out) = Len(data)), !.n = Len(data)]
   ELSE
-    \* a call that should have been accepted but failed or panicked contributes poison output, so that
-    \* "every schedule gives the same result" is violated rather than vacuously true
+    \* a refused or panicking call changes nothing (the implementation consumed nothing); if the call was inside
+    \* the domain it is counted, and the relational properties require equal counts ("a schedule that is refused
+    \* does not give the same result"); whether the refusal itself is right is C11's / C13's business
     /\ objs' = [objs EXCEPT ![o] = [ob EXCEPT !.status = IF res = "panic" THEN "dead" ELSE @,
-                    !.inp = IF pres = "ok" THEN @ \o data ELSE @,
-                    !.out = IF pres = "ok" THEN @ \o PoisonBlk(Len(data)) ELSE @,
-                    !.pred = IF pres = "ok" THEN @ \o pr.out ELSE @,
-                    !.st = IF pres = "ok" THEN pr.st ELSE @]]
+                                             !.nref = IF pres = "ok" THEN @ + 1 ELSE @]]
     /\ last' = [Lst(ev, o, res, pres) EXCEPT !.keep = (out = IF b2b THEN junk ELSE data), !.n = Len(data)]
 
 (* encrypt/decrypt_block[s][_b2b|_inout], apply_keystream_block[s][_inout], write_keystream_block[s] *)
@@ -119,7 +122,7 @@ Blocks(o, data, b2b, junk, multi, res, out) ==
               ELSE PosApply(bk, ob.c, ob.iv0, ob.st, data, ob.bs)
   IN  /\ Live(o) /\ (ob.kind \in BlockKinds \/ core)
       /\ DataCall("blocks", o, data, b2b, junk, res, out, pres, pr)
-      /\ IF core /\ bk # "ofb" /\ res = "ok" /\ Len(out) = Len(data)
+      /\ IF core /\ bk # "ofb" /\ res = "ok" /\ pres = "ok" /\ ~ob.off /\ Len(out) = Len(data)
          THEN KsRecord(ob, ob.st, data, out) ELSE UNCHANGED <<ks, ksbad>>
       /\ UNCHANGED dbg
 
@@ -134,7 +137,7 @@ Bytes(o, data, b2b, junk, res, out) ==
               ELSE PosApply(bk, ob.c, ob.iv0, ob.st, data, ob.bs)
   IN  /\ Live(o) /\ (bk = "cfbbuf" \/ bk \in StreamKinds)
       /\ DataCall("bytes", o, data, b2b, junk, res, out, pres, pr)
-      /\ IF bk \in SeekKinds /\ res = "ok" /\ Len(out) = Len(data)
+      /\ IF bk \in SeekKinds /\ res = "ok" /\ pres = "ok" /\ ~ob.off /\ Len(out) = Len(data)
          THEN KsRecord(ob, ob.st, data, out) ELSE UNCHANGED <<ks, ksbad>>
       /\ UNCHANGED dbg
 
@@ -179,6 +182,7 @@ Seek(o, t, p, res) ==
   IN  /\ Live(o) /\ ob.kind \in SeekKinds
       /\ objs' = [objs EXCEPT ![o] = [ob EXCEPT !.st = IF res = "ok" THEN StOfPos(p, ob.bs) ELSE @,
                                                  !.moved = TRUE,
+                                                 !.off = @ \/ (res = "ok" /\ pres # "ok"),
                                                  !.status = IF res = "panic" THEN "dead" ELSE @]]
       /\ last' = [Lst("seek", o, res, pres) EXCEPT !.t = t, !.v = p]
       /\ UNCHANGED <<ks, ksbad, dbg>>
